@@ -106,7 +106,8 @@ class P:
         if len(io) != len(mo): return "length"
         for a, b in zip(io, mo):
             if ":L[" in a or a.startswith(("ERR:", "PANIC", "DEADLOCK")):
-                eq, _ = values.exec_equal(a, b)
+                eq, abst = values.exec_equal(a, b)
+                if abst: return None      # the model abstained (known dependency class): the rest of this history is not comparable
                 if not eq: return "result under re-entrancy"
             elif a != b: return "context/log"
         return None
